@@ -103,7 +103,7 @@ def big_structure(draw, **kw):
     """Structures outside the size / content envelope of `structure`: protein chains and nucleic-acid
     strands in ONE file (`mixed`), many chains (4-9, or 27-30: more than the alphabet), one long chain
     (10-24 residues).  desc["big"] names the kind."""
-    kind = draw(st.sampled_from(["mixed", "mixed", "mixed", "many", "many", "alphabet", "long", "long"]))
+    kind = draw(st.sampled_from(["mixed", "mixed", "mixed", "many", "many", "alphabet", "long", "long", "hidden-many"]))
 
     def mk(**base):
         p = dict(contact=False, variants=0.3)
@@ -123,6 +123,25 @@ def big_structure(draw, **kw):
     elif kind == "alphabet":
         desc = draw(mk(min_chains=27, max_chains=30, nmax=2, idpool=MANY_IDS))
         desc["waters"] = desc.get("waters", [])[:1]
+    elif kind == "hidden-many":
+        # 53-56 copies of one short peptide under ONE chain id, no TER: chain ends recognisable only by
+        # the OXT atoms - more hidden chains than there are letters to name them
+        import copy
+
+        desc = draw(mk(max_chains=1, nmax=2))
+        base = desc["chains"][0]
+        base.update(oxt=True, ter=False, start=1)
+        for k in ("nums", "icodes", "altmod", "extra", "drop_spec", "hetres"):
+            base.pop(k, None)
+        desc.pop("order", None)
+        n = len(base["seq"])
+        copies = []
+        for k in range(draw(st.integers(53, 56))):
+            c = copy.deepcopy(base)
+            c["start"] = 1 + k * (n + 1)
+            copies.append(c)
+        desc["chains"] = copies
+        desc["waters"] = []
     else:
         desc = draw(mk(max_chains=1, nmin=10, nmax=24, variants=0.25))
     if len(desc["chains"]) > 3:
